@@ -478,6 +478,7 @@ impl<'a> Explorer<'a> {
                     if l.vios.wants(cfg.tag_single, "single-vs-reference") {
                         let mut j = cfg.to_json();
                         j.put("calls", J::Arr(vec![ECallRec { units: scalars.clone(), cap: scalars.len() * 12 + 64, last: true, fill: 0, dalign: 0, fresh: true, method: 2 }.to_json()]));
+                        j.put("loop", J::Bool(true));
                         j.put("detail", J::obj().set("message", J::s(&msg)));
                         l.vios.add(Violation { prop: cfg.tag_single.to_string(), kind: "single-vs-reference".into(), msg, replay: j });
                     } else {
